@@ -57,6 +57,33 @@ def native_problem(x, path="$"):
     return f"{path}: {type(x).__name__} value {x!r} is not JSON-native"
 
 
+def fill_defaults(o):
+    import copy
+    import dataclasses
+
+    if isinstance(o, list):
+        return [fill_defaults(x) for x in o]
+    if isinstance(o, tuple) and not hasattr(o, "_fields"):
+        return tuple(fill_defaults(x) for x in o)
+    if dataclasses.is_dataclass(o) and not isinstance(o, type):
+        kw = {}
+        for f in dataclasses.fields(o):
+            v = getattr(o, f.name)
+            if v is None and f.default is not dataclasses.MISSING and f.default is not None:
+                v = copy.deepcopy(f.default)
+            elif v is None and f.default_factory is not dataclasses.MISSING:
+                v = f.default_factory()
+            else:
+                v = fill_defaults(v)
+            if f.init:
+                kw[f.name] = v
+        try:
+            return type(o)(**kw)
+        except Exception:  # noqa: BLE001
+            return o
+    return o
+
+
 def check(ctx, model, style, loaded, obj, factory, indent, as_list=False):
     from typing import List
 
@@ -77,8 +104,11 @@ def check(ctx, model, style, loaded, obj, factory, indent, as_list=False):
     nontrivial = sum(len(c.fields) for c in model.classes) >= 2
     sfp, ofp = bc.structure_fp(model), bc.obj_fp(model, obj)
 
+    # under the None-filtering factory a None is an absent key, and an absent key decodes to the field default
+    expected = fill_defaults(value) if factory == "filter_none" else value
+
     def same(back, route):
-        d = deep_eq(value, back)
+        d = deep_eq(expected, back)
         if d:
             ctx.violation(f"roundtrip-mismatch/{route}/{factory}/{bc.diff_key(model, obj, d.replace('$[0]', '$').replace('$[1]', '$'))}", f"{d}\nencoded: {str(enc)[:1200]}", w)
 
